@@ -342,7 +342,7 @@ func runC09case(c *Ctx, withFaults bool) (string, string, string, string) {
 			where = fmt.Sprintf("revert(%d) from %d (%s)", target, tip, saved)
 			failAt := -1
 			if withFaults && t.Bool(1, 2) {
-				failAt = disk.OpCount + int(t.Choose(4))
+				failAt = disk.OpCount + int(t.Choose(9)) // a revert across two files takes up to eight storage operations
 				fa := failAt
 				disk.FailOp = func(n int, kind, key string) error {
 					if n == fa {
